@@ -13,7 +13,7 @@ HERE = os.path.dirname(os.path.abspath(__file__))
 sys.path.insert(0, HERE)
 import vlib
 
-SKIP = {"gen_manifest", "gen_all", "gen_c14_synth"}
+SKIP = {"gen_manifest", "gen_all", "gen_c14_synth", "gen_seeded_table"}
 
 
 def main():
